@@ -18,6 +18,12 @@ ASSUMPTIONS = ["'in the clear' is judged on API outputs; C_WrapKey / derive inhe
 PROT = {0x103, 0x162, 0x210}
 
 
+def in_projection_derive(m):
+    # in the derive matrix every read is about the inherited protection: flag values and whether CKA_VALUE is revealed
+    if m["op"] == "getattr": return m["cat"] in ("rvclass", "rvcode", "nums", "vals")
+    return in_projection(m)
+
+
 def in_projection(m):
     if m["op"] == "getattr":
         # the model says sensitive (0x11) or the object is sensitive/unextractable and the answers differ
@@ -43,6 +49,8 @@ def run_k(ctx, kres):
     # who may be wrapped under whom: secret / RSA private / EC private keys x EXTRACTABLE x WRAP_WITH_TRUSTED x SENSITIVE x (un)trusted AES and RSA wrapping keys x mechanisms
     from .. import gen2
     v += k_suite(ctx, kres, "K02-wrap-matrix(exhaustive)", [Trace("wrap-matrix", gen2.c02_wrap_matrix(ctx.seed))], in_projection, direct=ksuites.protection_direct)
+    # what a key derived with the three concatenation mechanisms inherits: (SENSITIVE, EXTRACTABLE) of base and second key x template; flags and the value read back
+    v += k_suite(ctx, kres, "K02-derive-matrix(exhaustive)", [Trace("derive-matrix", gen2.c02_derive_matrix(ctx.seed))], in_projection_derive, direct=ksuites.protection_direct)
     return v
 
 
